@@ -21,7 +21,6 @@ import contextlib
 import io
 import itertools
 import math
-import os
 import sys
 
 from hypothesis import strategies as st
@@ -297,24 +296,80 @@ def same(a, b):
     return type(a) is type(b) and a == b
 
 
-# A mutated search / scan loop may not terminate.  Library frames of the codec
-# are traced while one fiber is examined and the number of executed lines is
-# bounded: deterministic (no clock), and far above anything a correct scan of
-# these small fibers needs (the largest count seen on the pinned tree is noted
-# next to STEP_BUDGET).
+# A mutated search / scan loop may not terminate.  While one fiber is examined
+# the executed lines of the codec methods that contain a loop are counted and
+# bounded: deterministic (no clock) and far above what a correct scan of these
+# small fibers needs (largest count seen on the pinned tree: < 8 000).
 
 class StepBudgetExceeded(Exception):
     pass
 
 
-STEP_BUDGET = 400000          # max. observed on the pinned tree: see report
-_CODEC_DIR = os.sep + os.path.join("fibertree", "codec") + os.sep
-_LOOPING = ("coordToHandle", "nextInSlice", "countLeft")   # the methods of the U/C/B formats that loop
-MAX_STEPS_SEEN = [0]
+STEP_BUDGET = 400000
+_MON = getattr(sys, "monitoring", None)
+_TOOL = 4
+_count = [0, 0]          # [lines executed for the current fiber, budget (0 = not counting)]
+
+
+def _looping_codes():
+    import dis
+    from fibertree.codec.formats.bitvector import Bitvector
+    from fibertree.codec.formats.compression_format import CompressionFormat
+    from fibertree.codec.formats.coord_list import CoordinateList
+    from fibertree.codec.formats.uncompressed import Uncompressed
+    seen, out = set(), []
+    for cls in (CompressionFormat, Uncompressed, CoordinateList, Bitvector):
+        for name in sorted(vars(cls)):
+            fn = vars(cls)[name]
+            fn = getattr(fn, "__func__", fn)
+            code = getattr(fn, "__code__", None)
+            if code is None or code in seen or name.startswith("encode") or name == "insertElement":
+                continue          # not called while a fiber is examined
+            seen.add(code)
+            if any(i.opname in ("JUMP_BACKWARD", "JUMP_BACKWARD_NO_INTERRUPT", "FOR_ITER", "JUMP_ABSOLUTE")
+                   for i in dis.get_instructions(code)):
+                out.append(code)
+    return out
+
+
+_LOOPING = _looping_codes()
+
+
+def _on_line(code, line):
+    if _count[1]:
+        _count[0] += 1
+        if _count[0] > _count[1]:
+            _count[1] = 0
+            raise StepBudgetExceeded()
+
+
+def _install_monitor():
+    if _MON is None:
+        return False
+    if _MON.get_tool(_TOOL) not in (None, "vf-c20"):
+        return False
+    if _MON.get_tool(_TOOL) is None:
+        _MON.use_tool_id(_TOOL, "vf-c20")
+    _MON.register_callback(_TOOL, _MON.events.LINE, _on_line)
+    for code in _LOOPING:
+        _MON.set_local_events(_TOOL, code, _MON.events.LINE)
+    return True
+
+
+_MONITORED = _install_monitor()
 
 
 @contextlib.contextmanager
 def step_budget(n):
+    if _MONITORED:
+        _count[0], _count[1] = 0, n
+        try:
+            yield
+        finally:
+            _count[1] = 0
+        return
+    # fallback (no sys.monitoring): settrace on the looping methods
+    codes = set(_LOOPING)
     count = [0]
 
     def local(frame, event, arg):
@@ -325,17 +380,14 @@ def step_budget(n):
         return local
 
     def glob(frame, event, arg):
-        code = frame.f_code
-        return local if code.co_name in _LOOPING and _CODEC_DIR in code.co_filename else None
+        return local if frame.f_code in codes else None
 
     old = sys.gettrace()
     sys.settrace(glob)
     try:
-        yield count
+        yield
     finally:
         sys.settrace(old)
-        if count[0] > MAX_STEPS_SEEN[0]:
-            MAX_STEPS_SEEN[0] = count[0]
 
 
 def check_fiber(f, rec, child_objs, dims, desc, where, bases, recorder):
